@@ -156,6 +156,28 @@ def run(repo, rep, tier):
             f, call = filled[k]
             rep.finding("R16.2", ch, ch.node, f"slot `{k}` is filled by {f.qualname} (line {call.lineno}) but not listed by "
                         f"`children`: the cross-reference walk never visits it", stmt=f"children misses {k}")
+    # templates listed by `children` today must stay listed: the walk detects a node that is its own descendant through a
+    # sparse container's template only because `children` includes it (confirmed table, DESIGN App. E)
+    TEMPLATE_LISTED = {"SparselyBin": "value", "Categorize": "value"}
+    for c in prims:
+        if c.name in TEMPLATE_LISTED:
+            ch = repo.lookup(c, "children")
+            selfname = ch.params[0]
+            read = {n.attr for n in walk_local_stmt(ch.node) if isinstance(n, ast.Attribute) and isinstance(n.value, ast.Name) and n.value.id == selfname}
+            ok = TEMPLATE_LISTED[c.name] in read
+            r2.ob(ok, f"{c.name}: children lists the template `{TEMPLATE_LISTED[c.name]}`")
+            if not ok:
+                rep.finding("R16.2", ch, ch.node, f"`children` no longer lists the template `{TEMPLATE_LISTED[c.name]}`: a tree in which a node is its "
+                            f"own descendant through this template is not detected (RecursionError / state changed before any error)",
+                            stmt=f"children misses template {TEMPLATE_LISTED[c.name]}")
+    # the walk's memo must be created per traversal: no mutable default, no module-level memo
+    from .c06 import mutable_default_writes
+    hits, _ = mutable_default_writes(repo)
+    gh = [h for h in hits if h[0].name == GUARD]
+    r3.ob(not gh, "the walk's memo is not a shared mutable default")
+    for fi, p, n, what in gh:
+        rep.finding("R16.3", fi, n, f"{what}: the memo `{p}` is a mutable default shared by every traversal in the process: nodes remembered from "
+                    f"an earlier (rejected) fill make later legal trees fail with 'same aggregator twice'", stmt=f"shared memo {p}")
     # R16.3
     f = repo.own_method(cont, GUARD)
     rep.analysed_functions.add(f.construct)
